@@ -22,7 +22,7 @@ from .c10 import _reps
 
 PID = 'C20'
 RULE = ('(A) all permutation score matrices for (P,C) in {2x2, 2x3, 3x2} (quick) + 2x4, 4x2, 3x3 (thorough) x all compositions of C into P targets; '
-        'for 3x4, 4x4, 4x8: sorted matrix + all single and double transpositions x all compositions; (B) per-channel MPS models x every per-channel arg-max '
+        'for 3x4 (single and double transpositions), 4x4, 4x8 (single transpositions) of the sorted / reversed matrix x all compositions; (B) per-channel MPS models x every per-channel arg-max '
         'assignment of one layer (<= 4 channels) x precision sets (2,4,8), (0,2,4,8), (8,2,4); non-trivial = an input in which at least one channel must move')
 ASSUMPTIONS = ['score matrices are tie-free (the statement quantifies over score matrices; ties are broken arbitrarily by arg-sort)',
                'model level uses 8-bit activations as the NE16 model requires']
@@ -112,7 +112,7 @@ def _run_A(case, seed):
                     t = list(b0)
                     t[i], t[j] = t[j], t[i]
                     cand.append(tuple(t))
-                    if n <= 16:
+                    if n <= 12:
                         for k, l in itertools.combinations(range(n), 2):
                             if (k, l) > (i, j):
                                 u = list(t)
